@@ -51,6 +51,9 @@ pub struct Profile {
     pub p_shared_prefix: usize,
     /// percent of symbols with a clip marker
     pub p_clip: usize,
+    /// percent of grammars whose rules are written in a random order (the start symbol is named by
+    /// %start, not by position; definitions may precede uses)
+    pub p_shuffle: usize,
 }
 
 impl Profile {
@@ -74,6 +77,7 @@ impl Profile {
             terms: Terms::Letters,
             p_shared_prefix: 0,
             p_clip: 0,
+            p_shuffle: 35,
         }
     }
 }
@@ -574,6 +578,9 @@ pub fn gen_grammar(rng: &mut Rng, p: &Profile) -> Grammar {
             }
         }
     }
+    if n > 1 && cx.rng.chance(p.p_shuffle, 100) {
+        cx.rng.shuffle(&mut g.rules);
+    }
     g
 }
 
@@ -953,6 +960,35 @@ pub fn decorate_scanner(g: &mut Grammar, rng: &mut Rng) {
     }
 }
 
+/// AST-control attributes on non-terminal occurrences (clip, member name, user type). They have
+/// no influence on the language or the tables; transformations must treat a decorated occurrence
+/// like a plain one.
+pub fn decorate_occurrences(g: &mut Grammar, rng: &mut Rng) {
+    fn walk(alts: &mut Alts, rng: &mut Rng, used: &mut usize) {
+        for alt in alts.iter_mut() {
+            for f in alt.iter_mut() {
+                match f {
+                    Factor::N(_, c) => match rng.below(8) {
+                        0 | 1 => c.clip = true,
+                        2 => {
+                            *used += 1;
+                            c.member = Some(format!("dm{used}"));
+                        }
+                        3 => c.utype = Some("crate::types::Conv".to_string()),
+                        _ => {}
+                    },
+                    Factor::Grp(a) | Factor::Opt(a) | Factor::Rep(a) => walk(a, rng, used),
+                    _ => {}
+                }
+            }
+        }
+    }
+    let mut used = 0;
+    for r in g.rules.iter_mut() {
+        walk(&mut r.alts, rng, &mut used);
+    }
+}
+
 /// AST-control and declaration annotations (member names, user types, %user_type, %nt_type,
 /// %t_type, title, comment).
 pub fn annotate(g: &mut Grammar, rng: &mut Rng) {
@@ -971,9 +1007,9 @@ pub fn annotate(g: &mut Grammar, rng: &mut Rng) {
     if rng.chance(1, 4) {
         g.t_type = Some("crate::types::MyToken".into());
     }
-    let names = g.nt_names();
-    if rng.chance(1, 3) && names.len() > 1 {
-        let n = rng.pick(&names[1..]).clone();
+    let names: Vec<String> = g.nt_names().into_iter().filter(|n| *n != g.start).collect();
+    if rng.chance(1, 3) && !names.is_empty() {
+        let n = rng.pick(&names[..]).clone();
         g.nt_types.push((n, "crate::types::NtType".into()));
     }
     fn walk(alts: &mut Alts, rng: &mut Rng, has_alias: bool) {
